@@ -43,7 +43,12 @@ func (o *goSliceObject) setLength(value Value) {
 	case wantInt < o.value.Cap():
 		// Fits in current capacity.
 		have := o.value.Len()
-		o.value.SetLen(wantInt)
+		if o.value.CanSet() {
+			o.value.SetLen(wantInt)
+		} else {
+			// a slice passed by value: only the script's view can change
+			o.value = o.value.Slice(0, wantInt)
+		}
 		// elements removed by an earlier shrink must not come back
 		for i := have; i < wantInt; i++ {
 			o.value.Index(i).Set(reflect.Zero(o.value.Type().Elem()))
